@@ -350,7 +350,12 @@ func (i *Info) CanReadMessagesUsingIndex() bool {
 	// If there are chunk indexes, we can read messages using the index.
 	// if there are none, but the statistics indicate that there are messages, then we know
 	// that a read using the indexed message iterator will still yield the correct set of messages.
-	return len(i.ChunkIndexes) > 0 || (i.Statistics != nil && i.Statistics.MessageCount == 0)
+	// Index-based reading learns about channels from the summary section only: chunk indexes without
+	// any channel record in the summary cannot be used, messages would be silently dropped.
+	if len(i.ChunkIndexes) > 0 {
+		return len(i.Channels) > 0
+	}
+	return i.Statistics != nil && i.Statistics.MessageCount == 0
 }
 
 type MessageIndexEntry struct {
